@@ -20,8 +20,11 @@ class Clock:
     """ logical clock owned by the harness """
     def __init__(self, start=1000.0):
         self.now = start
+        self.once = []     # one-shot values returned by the next calls of monotonic() (a request that started earlier)
 
     def monotonic(self):
+        if self.once:
+            return self.once.pop(0)
         return self.now
 
     def time(self):
